@@ -457,7 +457,14 @@ class Array(metaclass=MetaArray):
             shape = cls._shape
         if not cls._is_static_type:
             items = np.prod(shape)
-            self._offsets = Int64._array_from_buffer(buffer, coffset, items)
+            offsets = Int64._array_from_buffer(buffer, coffset, items)
+            if len(shape) > 1:
+                # the table is stored in memory order: expose it by index
+                order = mk_order(cls._order, shape)
+                offsets = offsets.reshape(
+                    [shape[io] for io in order]
+                ).transpose(np.argsort(order))
+            self._offsets = offsets
         return self
 
     @classmethod
@@ -481,8 +488,14 @@ class Array(metaclass=MetaArray):
             )
             coffset += 8 * len(header)
         if not cls._is_static_type:
-            Int64._array_to_buffer(buffer, coffset, info.offsets)
-            coffset += 8 * len(info.offsets)
+            table = info.offsets
+            if len(info.shape) > 1:
+                # arrange the table in memory order, as the strides address it
+                table = np.ascontiguousarray(
+                    np.transpose(table, info.order)
+                )
+            Int64._array_to_buffer(buffer, coffset, table)
+            coffset += 8 * table.size
         if hasattr(cls._itemtype, "_dtype") and hasattr(
             value, "dtype"
         ):  # is a scalar type:
